@@ -47,10 +47,7 @@ type Opts struct {
 }
 
 func FreePort() int {
-	l, err := net.Listen("tcp", "127.0.0.1:0")
-	if err != nil {
-		panic(err)
-	}
+	l := ListenOwn()
 	p := l.Addr().(*net.TCPAddr).Port
 	l.Close()
 	return p
